@@ -38,6 +38,8 @@ type tcase struct {
 	Src  string     `json:"src"`
 	Fn   string     `json:"fn"`
 	Args [][]string `json:"args"`
+	// helper functions whose code-section entries are reported before the one of Fn
+	ExtraFns []string `json:"extra_fns"`
 }
 
 type callRes struct {
@@ -218,10 +220,18 @@ func runCase(ctx context.Context, rt wazero.Runtime, c tcase) (res result) {
 		fn = "f"
 	}
 	narrow := false
+	for _, hn := range c.ExtraFns {
+		if idx, ok := mi.exports[hn]; ok {
+			li := int(idx) - len(mi.imports)
+			if li >= 0 && li < len(mi.codes) {
+				res.Code += hex.EncodeToString(mi.codes[li])
+			}
+		}
+	}
 	if idx, ok := mi.exports[fn]; ok {
 		li := int(idx) - len(mi.imports)
 		if li >= 0 && li < len(mi.codes) {
-			res.Code = hex.EncodeToString(mi.codes[li])
+			res.Code += hex.EncodeToString(mi.codes[li])
 			ty := mi.types[mi.funcs[li]]
 			res.Type = hex.EncodeToString(ty[0]) + ":" + hex.EncodeToString(ty[1])
 			narrow = len(ty[1]) == 1 && (ty[1][0] == 0x7f || ty[1][0] == 0x7d)
